@@ -56,7 +56,7 @@ _UN = {'Neg': 'DNeg', 'FloatFn': 'DFloatFn', 'Floor': 'DFloor', 'View': 'DView',
        'Concat': 'DConcat', 'IsNone': 'DIsNone', 'IsNp': 'DIsNp', 'Not': 'DNot'}
 _BIN = {'Bin': 'DBin', 'Pow': 'DPow', 'Div': 'DDiv', 'FloorDiv': 'DFloorDiv', 'Cmp': 'DCmp', 'Matmul': 'DMatmul',
         'Tensordot': 'DTensordot', 'Astype': 'DAstype', 'Cast': 'DCast', 'Inplace': 'DInplace', 'Aug': 'DAug', 'Setitem': 'DSetitem',
-        'Choice': 'DChoice', 'Let': 'DLet', 'Loop': 'DLoop'}
+        'Choice': 'DChoice', 'Let': 'DLet', 'Loop': 'DLoop', 'DtypeEq': 'DDtypeEq'}
 
 
 def coq(e):
@@ -73,6 +73,8 @@ def coq(e):
         return "(%s %s)" % (_UN[t], coq(e[1]))
     if t in _BIN:
         return "(%s %s %s)" % (_BIN[t], coq(e[1]), coq(e[2]))
+    if t == 'IsPy':
+        return "(DIsPy %s %s %s)" % ("true" if e[1] else "false", "true" if e[2] else "false", coq(e[3]))
     if t == 'Reduce':
         return "(DReduce %s %s %s %s)" % (e[1], coq(e[2]), coq(e[3]), coq(e[4]))
     if t == 'Index':
@@ -229,7 +231,7 @@ def has_slice(node):
 MODFILES = {
     'cpu_ops': 'synapgrad/cpu_ops.py', 'conv_tools': 'synapgrad/conv_tools.py',
     'functional': 'synapgrad/functional.py', 'nn.functional': 'synapgrad/nn/functional.py',
-    'tensor': 'synapgrad/tensor.py', 'nn.layers': 'synapgrad/nn/layers.py', 'nn.losses': 'synapgrad/nn/losses.py',
+    'tensor': 'synapgrad/tensor.py', 'utils': 'synapgrad/utils.py', 'nn.layers': 'synapgrad/nn/layers.py', 'nn.losses': 'synapgrad/nn/losses.py',
     'nn.activations': 'synapgrad/nn/activations.py', 'nn.modules': 'synapgrad/nn/modules.py', 'nn.init': 'synapgrad/nn/init.py',
 }
 IMPORT_MODS = {'synapgrad.cpu_ops': 'cpu_ops', 'synapgrad.conv_tools': 'conv_tools', 'synapgrad.functional': 'functional',
@@ -1034,6 +1036,9 @@ class Interp:
                     return ('static', (a.st[1] == b.st[1]) == isinstance(op, ast.Eq))
                 if isinstance(op, (ast.In, ast.NotIn)):
                     return PYBOOL
+                if a.st and b.st and a.st[0] in ('dtype', 'dtypeof') and b.st[0] in ('dtype', 'dtypeof') and isinstance(op, (ast.Eq, ast.NotEq)):
+                    c = ('DtypeEq', a.e, b.e)
+                    return c if isinstance(op, ast.Eq) else ('Not', c)
                 if a.tag != 'A' or b.tag != 'A':
                     return PYBOOL       # Tensor defines no comparison: identity
                 if isinstance(op, ast.NotEq) and not value_ctx:
@@ -1049,6 +1054,11 @@ class Interp:
                 if v.tag == 'U':
                     return ('IsNp', v.e)
                 return ('static', False)
+            tys = ty.replace(' ', '').strip('()').split(',')
+            if tys and all(t in ('int', 'float') for t in tys):
+                if v.tag == 'T':
+                    return ('static', False)
+                return ('IsPy', 'int' in tys, 'float' in tys, v.e)
             return PYBOOL
         v = self.ev(n, env, fr)
         if v.st is not None and v.st[0] == 'str':
@@ -1059,6 +1069,18 @@ class Interp:
         return v.e
 
     # ---- attributes ----------------------------------------------------------------------------------------
+    def tensor_property(self, b, name, n, env, fr):
+        """<tensor>.<property>: the property's body (a single `return <expr>` over self) evaluated for this tensor"""
+        tmod = self.w.mods['tensor']
+        fd = None
+        for st in tmod.classes['Tensor'].body:
+            if isinstance(st, ast.FunctionDef) and st.name == name and any(ast.unparse(d) == 'property' for d in st.decorator_list):
+                fd = st
+        if fd is None or len(fd.body) != 1 or not isinstance(fd.body[0], ast.Return) or [a.arg for a in fd.args.args] != ['self']:
+            self.U(fr, n, "Tensor property %s is not a single return statement" % name)
+        pfr = Frame(tmod, 'tensor', None)
+        return self.ev(fd.body[0].value, Env({'self': V(b.e, 'T')}, env.depth), pfr)
+
     def ex_Attribute(self, n, env, fr):
         # self.<attr> of a layer
         if isinstance(n.value, ast.Name) and n.value.id == 'self' and fr.cls is not None:
@@ -1108,6 +1130,8 @@ class Interp:
             return V(('Seq', [('ToInt', b.e)]), 'A')
         if a == 'flags':
             return V(OPAQUE, 'A')
+        if fr.mode == 'tensor' and a == 'is_floating_point':
+            return self.tensor_property(b, a, n, env, fr)
         if fr.mode == 'tensor':
             if a in ('device', '_operation', 'name', '_name'):
                 return V(OPAQUE, 'A')
@@ -1436,8 +1460,8 @@ class Interp:
                 # tensor.py imports these lazily (`F = importlib.import_module("synapgrad.functional")`)
                 if root.id == 'F' and len(chain) == 1:
                     return self.app('wrapper', 'functional', chain[0], n, env, fr)
-                if root.id == 'utils' and chain == ['is_floating_point']:
-                    return V(PYBOOL, 'A')
+                if root.id == 'utils' and len(chain) == 1 and chain[0] in self.w.mods['utils'].funcs:
+                    return self.app('kernel', 'utils', chain[0], n, env, fr)
                 self.U(fr, n, "call of %s" % u)
             if isinstance(root, ast.Name) and not env.has(root.id) and root.id != 'self':
                 st = self.lookup(root.id, env, fr, n).st
